@@ -103,8 +103,9 @@ Inductive cmember_of (C : Type) := MCond (c : C) | MExpr (e : expr).
 Inductive cond := Cond (negate : bool) (is_any : bool) (members : list (cmember_of cond)).
 Definition cmember := cmember_of cond.
 
-(* ConditionHolderContents without the hidden Chain form *)
-Inductive holder := HEmpty | HCond (c : cond).
+(* ConditionHolderContents.  Chain is the form filled by the doc-hidden and_or_where(LogicalChainOper):
+   (true, e) = Or(e), (false, e) = And(e) *)
+Inductive holder := HEmpty | HChain (ms : list (bool * expr)) | HCond (c : cond).
 
 (* top-level shape, the only thing the parenthesis deciders look at *)
 Inductive shape :=
@@ -125,7 +126,7 @@ Arguments EColumn {Q}. Arguments ETuple {Q}. Arguments ENot {Q}. Arguments EFunc
 Arguments EBinary {Q}. Arguments ESubQuery {Q}. Arguments EValue {Q}. Arguments EValues {Q}.
 Arguments ECustom {Q}. Arguments ECustomWith {Q}. Arguments EKeyword {Q}. Arguments EAsEnum {Q}.
 Arguments ECase {Q}. Arguments EConstant {Q}. Arguments shape_of {Q}.
-Arguments Cond {Q}. Arguments MCond {Q C}. Arguments MExpr {Q C}. Arguments HEmpty {Q}. Arguments HCond {Q}.
+Arguments Cond {Q}. Arguments MCond {Q C}. Arguments MExpr {Q C}. Arguments HEmpty {Q}. Arguments HChain {Q}. Arguments HCond {Q}.
 
 Definition shape_key (s : shape) : N :=
   match s with
